@@ -36,6 +36,8 @@ func balanced(ids []token.ID) bool {
 // (c) silent => non-nil root; (d) provably invalid (unbalanced brackets) => at least one error.
 func evalC06(src []byte, cfg string) (o Outcome) {
 	starts := lineStartsOf(src)
+	must := strings.HasPrefix(cfg, "must|") // the input is invalid by a rule of the language: an error is due
+	cfg = strings.TrimPrefix(cfg, "must|")
 	for _, vs := range strings.Split(cfg, ",") {
 		a, b := parseVer(vs)
 		fail := func(site, d string) {
@@ -58,6 +60,9 @@ func evalC06(src []byte, cfg string) (o Outcome) {
 			o.Tags = append(o.Tags, "silent")
 			if po.Root == nil {
 				fail("silent-nil-root", "no error delivered but the returned tree is nil")
+			}
+			if must {
+				fail("invalid-accepted", "the program is invalid (a reference as foreach key / a trait with extends or implements) but no error was delivered")
 			}
 		} else {
 			o.Tags = append(o.Tags, "reported")
@@ -112,7 +117,7 @@ func evalC06(src []byte, cfg string) (o Outcome) {
 }
 
 func oracleC06() *Result {
-	r := &Result{Rule: "real parse with and without callback; every delivered error: non-empty message, nil or in-range non-empty position, lines by an independent oracle, non-decreasing offsets; trees of both runs equal (tokens + positions); silent => root non-nil; an input whose significant tokens are bracket-unbalanced (provably outside the grammar) must deliver an error. Generators: error-free corpus/G-cfg sources with one bracket token inserted or deleted or truncated after an opener, plus arbitrary bytes (G-bytes, mutations, random). Non-trivial = distinct non-empty input"}
+	r := &Result{Rule: "real parse with and without callback; every delivered error: non-empty message, nil or in-range non-empty position, lines by an independent oracle, non-decreasing offsets; trees of both runs equal (tokens + positions); silent => root non-nil; an input whose significant tokens are bracket-unbalanced (provably outside the grammar) must deliver an error. an input that is invalid by a rule of the language (a reference as foreach key, a trait with extends / implements; all subject/key/value/body/context combinations) must deliver an error under every version. Generators: error-free corpus/G-cfg sources with one bracket token inserted or deleted or truncated after an opener, plus arbitrary bytes (G-bytes, mutations, random). Non-trivial = distinct non-empty input"}
 	rng := newRand("C06")
 	versions := "5.6,7.4"
 	k := 2
@@ -174,6 +179,34 @@ func oracleC06() *Result {
 				add(m, "mutation")
 			}
 		}
+	}
+	// programs that are invalid by a rule of the language other than bracket balance: PHP rejects a
+	// reference as foreach key ("Key element cannot be a reference") and a trait that extends or
+	// implements; all combinations of subject / key / value / body forms and contexts
+	subjects := []string{"$a", "$a->b", "$a[0]", "f()", "A::$b", "A::f()", "array(1, 2)", "[1, 2]", "$a + $b", "new A", "(array) $x", "\"s\"", "1", "$a ? $b : $c", "clone $a", "function() {}"}
+	keys := []string{"&$k", "& $k", "&$k->p", "&$k[0]", "& /* c */ $k"}
+	vals := []string{"$v", "&$v", "list($x, $y)", "$v->w"}
+	bodies := []string{"{}", "{ echo $v; }", "echo 1;", ": endforeach;", ": echo 1; endforeach;"}
+	ctxs := [][2]string{{"<?php ", ""}, {"<?php function g() { ", " }"}, {"<?php class C { function m() { ", " } }"}, {"<?php if ($x) { ", " } else { }"}, {"<?php\n$q = 1;\n", "\n$r = 2;"}}
+	mustAdd := func(b string) {
+		tasks = append(tasks, Task{Oracle: "C06", Cfg: "must|" + versions, Src: []byte(b), Tag: "invalid-by-rule"})
+	}
+	for i, sj := range subjects {
+		for j, ky := range keys {
+			for l, vl := range vals {
+				for m, bd := range bodies {
+					if opts.Tier != "thorough" && (i+j+l+m)%3 != 0 {
+						continue
+					}
+					cx := ctxs[(i+j+l+m)%len(ctxs)]
+					mustAdd(cx[0] + "foreach (" + sj + " as " + ky + " => " + vl + ") " + bd + cx[1])
+				}
+			}
+		}
+	}
+	for _, t := range []string{"trait A extends B {}", "trait A implements B {}", "trait A extends B implements C, D { function f() {} }", "trait A implements \\B\\C { }", "trait\nA\nextends\nB\n{\n}", "namespace N; trait A extends B { use T; }"} {
+		mustAdd("<?php " + t)
+		mustAdd("<?php $a = 1; " + t + " $b = 2;")
 	}
 	for _, b := range genBytesExhaustive(k) {
 		add(b, "g-bytes")
